@@ -67,6 +67,10 @@ def run(chk):
     for o in chk.obs:
         if o.rule == "R-MEMOKEY":
             o.rule = "R-PEAK"
+    chk.rule("R-OWNS", "each signal object owns its samples (constructor and reset_values store a fresh array): the lazily kept velocity / displacement / peaks of one object cannot be invalidated behind its back by an in-place correction of another object or of the caller's array")
+    from ..tyob import owns_values
+    owns_values(chk, "R-OWNS")
+    chk.floor("R-OWNS", 4)
     chk.floor("R-INT-TYPE", 40)
     chk.floor("R-QUAD", 16)
     chk.floor("R-LAZY", 22)
